@@ -144,6 +144,24 @@ CHECKS = {
             'model. Sampled.',
             'as C07.',
             'DESIGN.md §3 C10'),
+    'C08': ('exploration',
+            'whole-system model-based mempool histories; oracle = reference MempoolModel compared '
+            'inside every intercepted stable on_mempool hand-over, plus touched-set completeness',
+            'Generated arrival / eviction / confirmation / conflict / fork / flood sequences run '
+            'through the real MemPool fed by the real DB and block processor; every stable refresh '
+            'must equal the reference view for all spendable pool scripts. Sampled.',
+            'FakeDaemon models bitcoind; unspendable-script views not compared.',
+            'DESIGN.md §3 C08'),
+    'C09': ('exploration',
+            'C08\'s machine with daemon changes scheduled at the suspension points of a refresh and '
+            'a latency tape; oracle = per-transaction invariants against the global outpoint table, '
+            'exact inverse index, liveness of the task, then C08\'s oracle at the next stable refresh',
+            'Daemon changes are fired at generated suspension points (listing, height re-check, '
+            'fetch batches, lookup jobs) while latency tapes desynchronise index and daemon; after '
+            'every hand-over the recorded transactions and the inverse index are judged. Sampled; the '
+            '(suspension point x event) matrix is reported.',
+            'as C08.',
+            'DESIGN.md §3 C09'),
 }
 
 NOT_BUILT = {}
